@@ -297,6 +297,7 @@ class ModuleNormalizer(object):
             if not changed:
                 break
         self._const_pass(cls, fn)
+        self._alias_pass(fn)
         self._ifexp_pass(fn)
 
     # ------------------------------------------------------------------ conditional expressions
@@ -323,6 +324,49 @@ class ModuleNormalizer(object):
                 out.append(s)
             return out
         fn.body = lower(fn.body)
+        ast.fix_missing_locations(fn)
+
+    # ------------------------------------------------------------------ local aliases of global constants
+    def _alias_pass(self, fn):
+        """`closed = wntr.network.LinkStatus.Closed` at the top level of a function, `closed` bound nowhere else: uses of the local read the dotted name.
+        Only attribute chains rooted in a name the function does not bind (a module or a class) and ending in a capitalised attribute (an enum member, a
+        class) are treated so: such a chain has no side effect and the same value at every use."""
+        stored = {}
+        for n in ast.walk(fn):
+            if isinstance(n, ast.Name) and isinstance(n.ctx, (ast.Store, ast.Del)):
+                stored[n.id] = stored.get(n.id, 0) + 1
+            elif isinstance(n, (ast.Global, ast.Nonlocal)):
+                for nm in n.names:
+                    stored[nm] = stored.get(nm, 0) + 2
+            elif isinstance(n, ast.arg):
+                stored[n.arg] = stored.get(n.arg, 0) + 1
+        aliases = {}
+        for s_ in list(fn.body):
+            if isinstance(s_, ast.Assign) and len(s_.targets) == 1 and isinstance(s_.targets[0], ast.Name) and stored.get(s_.targets[0].id) == 1:
+                e, chain = s_.value, []
+                while isinstance(e, ast.Attribute):
+                    chain.append(e.attr)
+                    e = e.value
+                if isinstance(e, ast.Name) and len(chain) >= 1 and chain[0][:1].isupper() and e.id not in stored and e.id not in ("self", "cls"):
+                    aliases[s_.targets[0].id] = (s_, s_.value)
+        if not aliases:
+            return
+        # a use before the binding statement (in source order at top level) would have been an UnboundLocalError: not rewritten in that case
+        for nm, (stmt, value) in list(aliases.items()):
+            before = fn.body[:fn.body.index(stmt)]
+            if any(isinstance(x, ast.Name) and x.id == nm for b in before for x in ast.walk(b)):
+                del aliases[nm]
+        if not aliases:
+            return
+
+        class T(ast.NodeTransformer):
+            def visit_Name(self, n):
+                if isinstance(n.ctx, ast.Load) and n.id in aliases:
+                    return ast.copy_location(copy.deepcopy(aliases[n.id][1]), n)
+                return n
+        fn.body = [T().visit(s_) for s_ in fn.body if not any(s_ is a_[0] for a_ in aliases.values())]
+        for nm in aliases:
+            self.log.append("%s: local alias %s of %s substituted" % (fn.name, nm, ast.unparse(aliases[nm][1])))
         ast.fix_missing_locations(fn)
 
     # ------------------------------------------------------------------ constants
